@@ -217,3 +217,33 @@ proof fn lemma_adv_monotone(line: int, col: int, t: Seq<char>)
         lemma_adv_monotone(if t[0] == '\n' { line + 1 } else { line }, if t[0] == '\n' { 0 } else { col + utf16_len(t[0]) }, t.skip(1));
     }
 }
+proof fn lemma_skip_ws_ge(s: Seq<char>, i: int)
+    requires 0 <= i <= s.len(),
+    ensures i <= skip_ws(s, i) <= s.len(),
+    decreases s.len() - i,
+{
+    if i < s.len() && is_tws(s[i]) { lemma_skip_ws_ge(s, i + 1); }
+}
+proof fn lemma_find_comment_end(s: Seq<char>, i: int)
+    requires 0 <= i,
+    ensures find_comment_end(s, i) == -1 || (i <= find_comment_end(s, i) && find_comment_end(s, i) + 1 < s.len()),
+    decreases s.len() - i,
+{
+    if i + 1 < s.len() && !(s[i] == '*' && s[i + 1] == '/') { lemma_find_comment_end(s, i + 1); }
+}
+/// automatic whitespace skipping never moves the cursor backwards or past the end
+proof fn lemma_skip_ws_js_ge(s: Seq<char>, i: int)
+    requires 0 <= i <= s.len(),
+    ensures i <= skip_ws_js(s, i) <= s.len(),
+    decreases s.len() - i,
+{
+    if i < s.len() {
+        lemma_skip_ws_ge(s, i);
+        let j = skip_ws(s, i);
+        if j < s.len() && j + 1 < s.len() && s[j] == '/' && s[j + 1] == '*' {
+            lemma_find_comment_end(s, j + 2);
+            let k = find_comment_end(s, j + 2);
+            if k >= j + 2 && k + 2 <= s.len() { lemma_skip_ws_js_ge(s, k + 2); }
+        }
+    }
+}
